@@ -84,12 +84,26 @@ def all_bodies(blk):
             yield from all_bodies(it[1])
 
 
+def gen_storm(rng):
+    """cancel storm on a target that swallows plain cancels inside its timed block: 1..3 consecutive refusals of
+    task_interrupt; three make the interruptor give up (loop exception handler)"""
+    inner = {"d": rng.choice([1, 2, 3]), "body": [["sc", rng.choice([2, 3])] for _ in range(rng.randint(4, 6))]}
+    if rng.random() < 0.5:
+        inner["body"].insert(rng.randint(0, 1), ["s0"])
+    prog = inner
+    if rng.random() < 0.6:
+        prog = {"d": rng.choice([None, 5, 8, 30]), "body": [["blk", inner], ["s", 1]]}
+    return {"loop": rng.choice(LOOPS), "aux": [], "prog": prog, "storm": rng.choice([1, 2, 3, 3])}
+
+
 def gen_case(rng):
     naux = rng.choice([0, 0, 1, 2])
     case = {"loop": rng.choice(LOOPS), "aux": [rng.randint(1, 6) for _ in range(naux)],
             "prog": gen_block(rng, rng.randint(1, 3), naux)}
     r = rng.random()
-    if r < 0.1:
+    if r < 0.06:
+        return gen_storm(rng)
+    if r < 0.14:
         case["cancel_at"] = [[rng.randint(0, 5), rng.randint(0, 3)]]
     elif r < 0.45:
         # child tasks, spawned somewhere inside the main task's block tree (so usually inside timed blocks),
@@ -136,7 +150,7 @@ def execute(case, **kw):
 def full(case):
     """real run + oracle + the `None is identity` comparison run"""
     r = execute(case)
-    if any(lv["d"] is None for lv in r.levels.values()) and not case.get("cancel_at"):
+    if any(lv["d"] is None for lv in r.levels.values()) and not case.get("cancel_at") and not case.get("storm"):
         r2 = execute(case, inline_none=True)
         if canon_log(r) != canon_log(r2):
             r.bad.append(("none-differs", "the run with task_timeout(None) levels differs from the run without them: "
@@ -162,6 +176,10 @@ def shrink(case, kind):
 
 def neighbours(case):
     c = json.loads(json.dumps(case))
+    if c.get("storm", 0) > 1:
+        c2 = json.loads(json.dumps(c))
+        c2["storm"] -= 1
+        yield c2
     if c.get("cancel_at"):
         c2 = json.loads(json.dumps(c))
         c2.pop("cancel_at")
@@ -281,6 +299,13 @@ def systematic(loop):
                         yield {"loop": loop, "aux": [], "children": [
                             {"pre": pre, "prog": {"d": db, "body": [["s", work]]}}],
                             "prog": {"d": da, "body": [["spawn", 0], ["s", psleep]]}}
+    # cancel storms: 1, 2, 3 consecutive refusals (3 = the interruptor's give-up path)
+    for n in [1, 2, 3]:
+        for d in [1, 2]:
+            for outer in [False, None, 9]:
+                inner = {"d": d, "body": [["sc", 2]] * 5}
+                prog = inner if outer is False else {"d": outer, "body": [["blk", inner], ["s", 1]]}
+                yield {"loop": loop, "aux": [], "prog": prog, "storm": n}
     for d1 in [1, 2, 3, None]:
         for d2 in [1, 2, 3, None, 0]:
             for k in [1, 2, 3]:
